@@ -166,6 +166,14 @@ impl<B: Buffer> History<B> {
     }
 }
 
+#[cfg(feature = "verif-hooks")]
+impl<B: Buffer> History<B> {
+    /// Raw view: whole buffer, number of used bytes, navigation cursor
+    pub fn verif_raw(&self) -> (&[u8], usize, Option<usize>) {
+        (self.buffer.as_slice(), self.used, self.cursor)
+    }
+}
+
 #[cfg(test)]
 mod tests {
     use crate::history::History;
